@@ -68,7 +68,8 @@ def _get_needed_ptrs(
             assert isinstance(except_expr, s_expr.Expression)
             needed_ptrs |= qlutils.find_subject_ptrs(except_expr.parse())
 
-    wl = list(needed_ptrs)
+    # needed_ptrs is a set of names: process it in sorted order
+    wl = sorted(needed_ptrs)
     ptr_anchors = {}
     while wl:
         p = wl.pop()
@@ -108,7 +109,8 @@ def _compile_conflict_select_for_obj_type(
     )
 
     # Check that no pointers in constraints are rewritten
-    for p in needed_ptrs:
+    # (sorted: needed_ptrs is a set)
+    for p in sorted(needed_ptrs):
         ptr = subject_typ.getptr(ctx.env.schema, s_name.UnqualName(p))
         rewrite_kind = (
             qltypes.RewriteKind.Insert
@@ -181,7 +183,8 @@ def _compile_conflict_select_for_obj_type(
 
     # Fill in empty sets for pointers that are needed but not present
     present_ptrs = set(ptr_anchors)
-    for p in (needed_ptrs - present_ptrs):
+    # (sorted: the difference of two sets of names)
+    for p in sorted(needed_ptrs - present_ptrs):
         ptr = subject_typ.getptr(ctx.env.schema, s_name.UnqualName(p))
         typ = ptr.get_target(ctx.env.schema)
         assert typ
@@ -758,7 +761,9 @@ def compile_inheritance_conflict_checks(
         return None
 
     assert isinstance(subject_stype, s_objtypes.ObjectType)
-    modified_ancestors = set()
+    # An insertion-ordered dict used as a set: the iteration order below
+    # determines the order of the conflict checks in the IR.
+    modified_ancestors = {}
     base_object = ctx.env.schema.get(
         'std::BaseObject', type=s_objtypes.ObjectType)
 
@@ -808,14 +813,14 @@ def compile_inheritance_conflict_checks(
                     ctx.env.schema, [subject_stype, typ])
                 for anc in ancs:
                     if anc != base_object:
-                        modified_ancestors.add((subject_stype, anc, ir))
+                        modified_ancestors[(subject_stype, anc, ir)] = None
 
     # If `id` is explicitly written to, synthesize a check against
     # BaseObject to ensure that it doesn't conflict with anything,
     # since we disable the trigger for id's exclusive constraint for
     # performance reasons.
     if has_id_write:
-        modified_ancestors.add((subject_stype, base_object, stmt))
+        modified_ancestors[(subject_stype, base_object, stmt)] = None
 
     conflicters = []
     for subject_stype, anc_type, ir in modified_ancestors:
